@@ -5,6 +5,7 @@ C14 - a displayed signature is the signature that was written.  Claimed narrowly
   R14.3 `-> None` is omitted
   R14.4 overloads own their signature
   R14.5 defaults are aligned to the end of the positional parameters (shape of the offset formula)
+  R14.6 the link helpers show the caller's label unchanged (pydoctor.linker)
 Does not decide: the text Signature.__str__ produces, equivalence of rendered defaults/annotations (C15), arbitrary layouts at run time.
 """
 from __future__ import annotations
@@ -250,10 +251,25 @@ def run(repo: Repo, chk: Check, thorough: bool = False) -> None:
     chk.ob('R14.4', f'{MV}._handleFunctionDef :: the signature built from this node goes to the overload XOR the function', ok,
            'if is_overload_func: overloads.append(FunctionOverload(signature=signature)) else: func.signature = signature' if ok else
            'an overload does not keep its own signature (or overwrites the primary one)', hf.loc)
-    ovt = [n for n in hf.walk() if isinstance(n, ast.Compare) and isinstance(n.ops[0], ast.In) and 'typing.overload' in norm(n.comparators[0])]
+    # the test that raises the overload flag: the innermost comparison dominating `<flag> = True`
+    oflags = (flags_o & flags_s) if ok else set()
+    sets_flag = [n for n in hf.walk() if isinstance(n, ast.Assign) and isinstance(n.value, ast.Constant) and n.value.value is True and
+                 any(isinstance(t, ast.Name) and t.id in oflags for t in n.targets)]
+    ovt = []
+    for a in sets_flag:
+        for t, pol in cfg.dominating_tests(a):
+            if pol and isinstance(t, ast.Compare) and any(isinstance(c, ast.Call) and call_name(c) == 'expandName' for c in ast.walk(t.left)):
+                ovt.append(t)
     if not ovt:
         chk.error('R14.4: the test recognising @overload was not found')
     for t in ovt:
+        lits = {c.value for cmp_ in t.comparators for c in ast.walk(cmp_) if isinstance(c, ast.Constant) and isinstance(c.value, str)}
+        want = {'typing.overload', 'typing_extensions.overload'}
+        okn = want <= lits and isinstance(t.ops[0], (ast.In, ast.Eq))
+        chk.ob('R14.4', f'{MV}._handleFunctionDef :: both spellings of @overload are recognised', okn,
+               f'expanded decorator name in {sorted(lits)}' if okn else
+               f'`{norm(t)[:90]}` no longer recognises {sorted(want - lits)}: such overloads become plain redefinitions, only the implementation '
+               'signature is shown', repo.loc(hf.mod, t))
         ex = [c for c in ast.walk(t.left) if isinstance(c, ast.Call) and call_name(c) == 'expandName']
         arg = ex[0].args[0] if ex and ex[0].args else None
         full = isinstance(arg, ast.Call) and call_name(arg) == 'join' and arg.args and isinstance(arg.args[0], ast.Name)
@@ -268,6 +284,54 @@ def run(repo: Repo, chk: Check, thorough: bool = False) -> None:
     ffd = repo.func('pydoctor.templatewriter.pages.format_function_def')
     ok = any(call_name(c) == 'format_signature' and c.args and norm(c.args[0]) == [p.arg for p in ffd.params()][2] for c in calls_in(ffd))
     chk.ob('R14.4', 'pages.format_function_def :: renders the signature of the object it was given', ok, 'format_signature(func)', ffd.loc)
+
+    # ------------------------------------------------------------------ R14.6
+    # names inside defaults / annotations are decorated with links; the decoration must not change the text: every tag the link helpers
+    # build shows the caller's label (whatever the target's visibility or location)
+    lk = repo.mod('pydoctor.linker')
+    CONTENT_POS = {'taglink': 2, 'intersphinx_link': 0, 'link_to': 1, 'link_xref': 1}
+    n_lab = 0
+    for f in sorted((f for f in repo.funcs.values() if f.mod is lk), key=lambda f: f.qn):
+        ps = [p.arg for p in f.params()]
+        if 'label' not in ps:
+            continue
+        for c in calls_in(f):
+            nm = call_name(c)
+            if isinstance(c.func, ast.Attribute) and dotted(c.func.value) == 'tags':
+                content = c.args[0] if c.args else None
+            elif nm in CONTENT_POS:
+                pos = CONTENT_POS[nm]
+                content = next((k.value for k in c.keywords if k.arg == 'label'), c.args[pos] if len(c.args) > pos else None)
+                if content is None and nm == 'taglink':
+                    continue   # label omitted on purpose: the callee falls back to the full name
+            else:
+                continue
+            n_lab += 1
+
+            def carries(e: Optional[ast.expr], depth: int = 0, f: Func = f) -> bool:
+                if e is None or depth > 4:
+                    return False
+                if isinstance(e, ast.Name):
+                    if e.id == 'label':
+                        return True
+                    vals = [n.value for n in f.walk() if isinstance(n, (ast.Assign, ast.AnnAssign)) and n.value is not None and
+                            any(isinstance(t, ast.Name) and t.id == e.id for t in (n.targets if isinstance(n, ast.Assign) else [n.target]))]
+                    return bool(vals) and all(carries(v, depth + 1) for v in vals)
+                if isinstance(e, ast.Call):
+                    if isinstance(e.func, ast.Attribute) and dotted(e.func.value) == 'tags':
+                        return carries(e.args[0] if e.args else None, depth + 1)
+                    if call_name(e) in CONTENT_POS:
+                        pos_ = CONTENT_POS[call_name(e)]
+                        return carries(next((k.value for k in e.keywords if k.arg == 'label'), e.args[pos_] if len(e.args) > pos_ else None), depth + 1)
+                return False
+            okl = carries(content)
+            chk.ob('R14.6', f'{f.qn} :: {norm(c.func)}(...) shows the caller\'s label', okl,
+                   f'{norm(c)[:70]}' if okl else
+                   f'`{norm(c)[:80]}` displays `{norm(content) if content is not None else "nothing"}` instead of the label it was given: a name in a '
+                   'default value or annotation is shown differently from what was written', repo.loc(f.mod, c))
+    if n_lab < 10:
+        raise AnalysisError(f'R14.6: only {n_lab} label-carrying tag constructions found in pydoctor.linker (13 confirmed)')
+    chk.require('R14.6', 10)
 
     # ------------------------------------------------------------------ R14.5
     posv = {k for k, v in local_src.items() if 'posonlyargs' in v and 'len(' not in v}
